@@ -294,6 +294,11 @@ func check(argv []string) int {
 		}
 		os.WriteFile(filepath.Join(tmpdir, "index.txt"), []byte(ib.String()), 0o644)
 	}
+	for _, o := range all {
+		if _, isKnown := known[o.Name]; isKnown {
+			o.NoRetry = true
+		}
+	}
 	ors := engine.Discharge(all, tmo, 16, tmpdir)
 
 	type violation struct {
